@@ -253,9 +253,51 @@ def two_waits():
     return body
 
 
+def same_filter():
+    """Two waits with the SAME filter plus an application callback with that
+    filter: completing one wait removes only its own callback."""
+    def body(d: Draw):
+        loop, va = vloop.install_for_mode()
+        client = setup_client()
+        from indi.client import events as ev
+        t1, t2 = d.rawint("t1"), d.rawint("t2")
+        if t1 < 0 or t2 <= t1:
+            raise Reject()
+        if MODE.real:
+            t1, t2, _ = vloop.compress_instants([t1, t2, 0])
+        seen = []
+        client.onevent(callback=lambda e: seen.append(e), device="D1", vector="V1", event_type=ev.ValueUpdate)
+        e1 = make_event(client, "value", True, 1, "V1")
+        e2 = make_event(client, "value", True, 2, "V1")
+        e2.new_value = "SECOND"
+        out = {}
+
+        async def w(tag, want):
+            try:
+                r = await client.waitforevent(device="D1", vector="V1", event_type=ev.ValueUpdate, expect=want, polling_enabled=False)
+                out[tag] = (r, loop.now)
+            except Exception as e:
+                out[tag] = ("exc", repr(e))
+        loop.create_task(w("a", "WANT"))
+        loop.create_task(w("b", "SECOND"))
+        loop.call_at(t1, client.trigger_event, e1)
+        loop.call_at(t2, client.trigger_event, e2)
+        loop.run_until_idle(t2 + 3)
+        if loop.task_errors:
+            return verdict(False, "a task died")
+        ok = out.get("a") == (e1, t1) and out.get("b") == (e2, t2)
+        ok = ok and len(seen) == 2 and len(client.callbacks) == 1
+        if MODE.trace is not None:
+            note("t", t1, t2, "out", {k: (type(v[0]).__name__, v[1]) for k, v in out.items()}, "app saw", len(seen), "callbacks", len(client.callbacks))
+        return verdict(ok, "completing one wait disturbed another wait or an application callback with the same filter")
+    return body
+
+
 def conditions(tier):
     out = []
     thorough = tier == "thorough"
+    out.append(Condition("concurrent/same-filter", make_condition(same_filter(), 0, 2, 0),
+                         about="two waits and an application callback sharing one filter", encodes=ENC, timeout=600))
     for cond_kind in ("expect", "initial", "check"):
         for etype in ("value", "state"):
             n = 3 if thorough else (2 if (cond_kind, etype) != ("expect", "value") else 3)
